@@ -197,6 +197,19 @@ def observe(spec, mask_seed, modes=('random',), wseed=0):
         else:
             p = PIT(model, input_example=tuple(x[:1] for x in xs), **kw)
         p = p.eval()
+        if spec.get('rewrap'):
+            # the converted model is pruned, its feature search is switched off and it is wrapped again without auto-conversion
+            from plinio.methods.pit.nn.features_masker import PITFeaturesMasker
+            g0 = torch.Generator().manual_seed(mask_seed)
+            with torch.no_grad():
+                for fm in set(m for m in p.seed.modules() if isinstance(m, PITFeaturesMasker)):
+                    fm.alpha.copy_((torch.rand(fm.alpha.shape, generator=g0) > 0.5).float())
+            p.train_features = False
+            if len(xs) == 1:
+                p = PIT(p.seed, input_shape=tuple(xs[0].shape[1:]), autoconvert_layers=False, train_features=False)
+            else:
+                p = PIT(p.seed, input_example=tuple(x[:1] for x in xs), autoconvert_layers=False, train_features=False)
+            p = p.eval()
     except Exception as ex:
         ob['construct'] = 'EXC:%s:%s' % (type(ex).__name__, str(ex)[:160])
         return ob
@@ -540,6 +553,18 @@ def corpus():
     n = [I, dict(_c2(0, 3, 4), pit=1, pit_frozen=False), {'k': 'relu', 'src': 1}, dict(_c2(2, 4, 3), pit=3, pit_frozen=False), {'k': 'relu', 'src': 3},
          {'k': 'gap2d', 'src': 4}, {'k': 'flatten', 'src': 5, 'start': 1, 'form': 'fn'}, {'k': 'linear', 'src': 6, 'cin': 3, 'cout': 2, 'bias': True, 'pit': 7, 'pit_frozen': True}]
     out.append(('placed-pit-layer-listed', {'dim': 2, 'nodes': n, 'exclude_names': [3], 'autoconvert': True}))
+    # stand-alone BatchNorm1d after a flatten with spatial size 25, then the classifier
+    n = [{'k': 'in', 'shape': [2, 5, 5]}, _c2(0, 2, 3), {'k': 'relu', 'src': 1}, {'k': 'flatten', 'src': 2, 'start': 1, 'form': 'fn'},
+         {'k': 'bn1d', 'src': 3, 'c': 75}, {'k': 'linear', 'src': 4, 'cin': 75, 'cout': 2, 'bias': True}]
+    out.append(('bn-after-flatten', {'dim': 2, 'nodes': n}))
+    # hand-placed PIT layers (autoconvert off) whose masker was created with trainable=False: it still masks what its alpha selects
+    n = [I, dict(_c2(0, 3, 4), pit=1, pit_frozen=False, pit_untrainable=True), {'k': 'relu', 'src': 1}, dict(_c2(2, 4, 3), pit=3, pit_frozen=False), {'k': 'relu', 'src': 3},
+         {'k': 'gap2d', 'src': 4}, {'k': 'flatten', 'src': 5, 'start': 1, 'form': 'fn'}, {'k': 'linear', 'src': 6, 'cin': 3, 'cout': 2, 'bias': True, 'pit': 7, 'pit_frozen': True}]
+    out.append(('untrainable-placed-masker', {'dim': 2, 'nodes': n, 'autoconvert': False}))
+    # PIT(model) -> pruned -> train_features = False -> wrapped again without auto-conversion
+    n = [I, _c2(0, 3, 4), {'k': 'relu', 'src': 1}, _c2(2, 4, 3), {'k': 'relu', 'src': 3}, {'k': 'gap2d', 'src': 4},
+         {'k': 'flatten', 'src': 5, 'start': 1, 'form': 'fn'}, {'k': 'linear', 'src': 6, 'cin': 3, 'cout': 2, 'bias': True}]
+    out.append(('rewrap-features-frozen', {'dim': 2, 'nodes': n, 'rewrap': True}))
     for _, s in out:
         s['out'] = [len(s['nodes']) - 1]
     return out
@@ -564,6 +589,13 @@ def classes_of(spec):
     out = []
     iscat = lambda j: nodes[j]['k'] == 'cat' and nodes[j]['dim'] == 1
     fixed_w = lambda j: nodes[j]['k'] == 'in' or (nodes[j]['k'] in LAYER and not is_dw(nodes[j]) and CG.excluded(spec, j)) or (nodes[j]['k'] in LAYER and not is_dw(nodes[j]) and not spec.get('autoconvert', True) and nodes[j].get('pit') is None)
+    if spec.get('rewrap'):
+        out.append('rewrapped-with-train-features-off')
+    for i, nd in enumerate(nodes):
+        if nd.get('pit_untrainable'):
+            out.append('placed-masker-not-trainable')
+        if nd['k'] in BN and len(sh[nd['src']]) == 1 and nodes[through(spec, nd['src'])]['k'] in ('flatten', 'squeeze', 'cat'):
+            out.append('batchnorm-after-flatten')
     for i, nd in enumerate(nodes):
         if nd.get('pit') is not None and CG.listed(spec, i):
             out.append('placed-pit-layer-listed-in-exclude')
@@ -694,7 +726,7 @@ def judge(spec, ob):
     return bad
 
 
-PRIORITY = ['placed-pit-layer-listed-in-exclude', 'squeeze-of-features-axis', 'axis-from-the-end:time-cat', 'axis-from-the-end:features-cat', 'axis-from-the-end:flatten', 'axis-from-the-end:squeeze', 'axis-from-the-end:unsqueeze', 'nested-flatten-calculators', 'squeeze-trailing-axis-of-4d', 'cat-repeats-a-tensor', 'depthwise-after-cat', 'add-with-cat-operand', 'cat-of-two-fixed-width-tensors',
+PRIORITY = ['rewrapped-with-train-features-off', 'placed-masker-not-trainable', 'batchnorm-after-flatten', 'placed-pit-layer-listed-in-exclude', 'squeeze-of-features-axis', 'axis-from-the-end:time-cat', 'axis-from-the-end:features-cat', 'axis-from-the-end:flatten', 'axis-from-the-end:squeeze', 'axis-from-the-end:unsqueeze', 'nested-flatten-calculators', 'squeeze-trailing-axis-of-4d', 'cat-repeats-a-tensor', 'depthwise-after-cat', 'add-with-cat-operand', 'cat-of-two-fixed-width-tensors',
             'cat-of-two-flattened-tensors', 'excluded-layer-next-to-searchable']
 
 
